@@ -105,6 +105,15 @@ func init() {
 // K[:16]; reading the package IV directly for reading a private copy of it (nobody writes through it: FX-C11-inputs)
 func normC11(s string) string {
 	s = strings.ReplaceAll(s, "mul(0x10,add(0x1,i))", "add(0x10,mul(0x10,i))")
+	// a loop that steps a byte offset: the first-block test on the offset, the previous block as [off-16:off], and
+	// under the first-block test a lower bound of 0 for off
+	s = strings.ReplaceAll(s, "eq(mul(0x10,i),0x0)", "eq(i,0x0)")
+	for _, nm := range []string{"DATA", "OUT"} {
+		s = strings.ReplaceAll(s, "slice("+nm+",sub(mul(0x10,i),0x10),mul(0x10,i))", blk(nm, "sub(i,0x1)"))
+		if strings.HasPrefix(s, "[eq(i,0x0)] ") {
+			s = strings.ReplaceAll(s, "slice("+nm+",_,add(0x10,mul(0x10,i)))", blk(nm, "i"))
+		}
+	}
 	s = strings.ReplaceAll(s, "slice(K,_,0x10)", "K")
 	s = strings.ReplaceAll(s, "init:global:IV", "init:copyN(0x10,global:IV)")
 	return s
